@@ -219,6 +219,13 @@ def run_impl(case):
         r = H.remove_ancilla_from_solution(s)
         if any(str(k).startswith('__a') for k in r) or {k: v for k, v in s.items() if not str(k).startswith('__a')} != r:
             out["checks"].append("remove_ancilla_from_solution(%r) = %r" % (s, r))
+    # the same on a synthetic solution with many ancillas (names with two and three digits): exactly the other entries remain
+    user = {l: (1 if not spin else -1) for l in labs}
+    many = dict(user)
+    many.update({'__a%d' % i: (0 if not spin else 1) for i in (0, 3, 9, 10, 11, 25, 100, 123)})
+    r = H.remove_ancilla_from_solution(many)
+    if r != user:
+        out["checks"].append("remove_ancilla_from_solution(%r) = %r, the non-ancilla part is %r" % (many, r, user))
     # (b) every minimiser of the unconstrained model itself
     usols = (qv.utils.solve_puso_bruteforce if spin else qv.utils.solve_pubo_bruteforce)(H, all_solutions=True)[1]
     for s in usols[:16]:
